@@ -311,7 +311,9 @@ func c18Run(rc *core.RunCtx) {
 	rc.Part = "state"
 	if rc.Take() {
 		fields := core.Fields{"part": "state"}
-		rc.Guard(fields, func() string { return "package-level variables of parser, symtable, compile, ast before/after compiling the corpus" }, func() {
+		rc.Guard(fields, func() string {
+			return "package-level variables of parser, symtable, compile, ast before/after compiling the corpus"
+		}, func() {
 			after := c18Globals()
 			d := diffGlobals(before, after)
 			rc.Eval("state", "state")
